@@ -7,6 +7,7 @@ import Driver.Common
 import Sth.Model.Multihash
 import Sth.Model.Conc
 import Sth.Model.Rate
+import Sth.Model.ConcPools
 import Sth.Model.Store
 
 namespace Driver.Sched
@@ -255,6 +256,140 @@ def rateEvent (c : RSim) (ev : String) : RSim :=
         | none => c
     | _ => c
 
+/-! ### replay of the real schedule on the pool-swap model Sth/Model/ConcPools.lean
+
+Per bucket the abstract value is the association key ↦ value of the bucket. Every store call starts with Index.Get (a `read` of
+the key's bucket: info section at [index.get.info_read], the file read before the thread's next event); a Put that got as far as
+[store.put.primary_put_done] performs one index mutator section before its next park, a Remove after
+[store.remove.primary_read_done] likewise; Index.Flush is the four sections at [index.flush.swapped], [index.flush.written],
+[index.flush.buckets_updated] and the flusher's next event. Compared: what every Get/Has/GetSize returned with the bucket view the
+model's read returned, and the contents read back after the schedule with the final views. -/
+
+def opKey (op : String) : String := ((op.splitOn ":").drop 1).headD ""
+/-- keys are identified by the hex of their digest -/
+def pkey (khex : String) : String := toHex (digestOf khex)
+
+abbrev PU := String × Option String
+abbrev PV := List (String × String)
+
+def poolsAp : PU → Option PV → Option PV
+  | (k, some v), old => some ((k, v) :: (old.getD []).filter (·.1 ≠ k))
+  | (k, none), old => match old with
+    | some l => if l.any (·.1 = k) then some (l.filter (·.1 ≠ k)) else none
+    | none => none
+
+structure PSim where
+  s : ConcPools.State PU PV := {}
+  names : List String := []
+  curOp : List (String × String) := []           -- thread ↦ the call it is in
+  pendIdx : List (String × PU) := []             -- thread ↦ index mutation it is about to perform
+  reading : List String := []                     -- threads between the info section and the file read
+  flushing : List String := []                    -- flushers past [index.flush.buckets_updated], release pending
+  lastGot : List (String × Option PV) := []
+  bad : List String := []
+  steps : Nat := 0
+deriving Repr
+
+def poolsStepWith (bits : Nat) (c : PSim) (t : String) (op : ConcPools.Op PU) (what : String) : PSim :=
+  let _ := bits
+  match c.names.findIdx? (· == t) with
+  | none => c
+  | some i =>
+    let th := (c.s.threads[i]?).getD {}
+    let s1 := ConcPools.setThread c.s i { th with prog := [op] }
+    match ConcPools.step poolsAp s1 i with
+    | some s' => { c with s := s', steps := c.steps + 1 }
+    | none => { c with bad := c.bad ++ [what ++ ": the model's section is blocked or not enabled"] }
+
+def poolsAdvance (c : PSim) (t : String) (what : String) : PSim :=
+  match c.names.findIdx? (· == t) with
+  | none => c
+  | some i =>
+    match ConcPools.step poolsAp c.s i with
+    | some s' => { c with s := s', steps := c.steps + 1 }
+    | none => { c with bad := c.bad ++ [what ++ ": the model's section is blocked or not enabled"] }
+
+def poolsEvent (bits : Nat) (c : PSim) (ev : String) : PSim :=
+  let bucketOf := fun (k : String) => (bucketOfKey bits (digestOf k)).getD 0
+  -- whatever the event is: a thread that moved has finished the file read of its Index.Get, and a flusher its release
+  let who : String := match ev.splitOn "@" with
+    | [t, _] => t
+    | _ => (ev.splitOn ":").headD ""
+  let c := if c.reading.contains who then
+      let c1 := poolsAdvance c who s!"{who}: file read of Index.Get"
+      let got : Option PV := match c1.names.findIdx? (· == who) with
+        | some i => match ((c1.s.threads[i]?).getD {}).out.getLast? with
+          | some (.got v) => v
+          | _ => none
+        | none => none
+      { c1 with reading := c1.reading.filter (· ≠ who), lastGot := (who, got) :: c1.lastGot.filter (·.1 ≠ who) }
+    else c
+  let c := if c.flushing.contains who then
+      { poolsAdvance c who s!"{who}: release of flushLock" with flushing := c.flushing.filter (· ≠ who) }
+    else c
+  match ev.splitOn ":" with
+  | [t, "go", pt] =>
+    if pt.startsWith "op" ∧ pt.endsWith ".begin" then c else
+    let _ := t
+    c
+  | [t, "ret", _, res] =>
+    -- a lookup call returns what the bucket view held for its key
+    let op := ((c.curOp.find? (·.1 = t)).map (·.2)).getD ""
+    match op.splitOn ":" with
+    | [kind, k] =>
+      if kind = "get" ∨ kind = "has" ∨ kind = "size" then
+        let v := (((c.lastGot.find? (·.1 = t)).map (·.2)).getD none).bind fun l => (l.find? (·.1 = pkey k)).map (·.2)
+        let exp := match kind, v with
+          | "get", some x => "v" ++ x
+          | "get", none => "absent"
+          | "has", some _ => "true"
+          | "has", none => "false"
+          | "size", some x => s!"n{x.length / 2}"
+          | _, _ => "absent"
+        if exp = res then c else { c with bad := c.bad ++ [s!"thread {t} {op}: model view gives [{exp}], the call returned [{res}]"] }
+      else c
+    | _ => c
+  | _ =>
+    match ev.splitOn "@" with
+    | [t, pt] =>
+      if pt.startsWith "op" ∧ pt.endsWith ".begin" then c else
+      if pt == "index.get.info_read" then
+        let op := ((c.curOp.find? (·.1 = t)).map (·.2)).getD ""
+        let k := opKey op
+        let c1 := poolsStepWith bits c t (.read (bucketOf k)) s!"{t}: info section of Index.Get"
+        { c1 with reading := t :: c1.reading }
+      else if pt == "store.put.primary_put_done" then
+        let op := ((c.curOp.find? (·.1 = t)).map (·.2)).getD ""
+        match op.splitOn ":" with
+        | ["put", k, v] => { c with pendIdx := (t, (k, some v)) :: c.pendIdx.filter (·.1 ≠ t) }
+        | ["put", k] => { c with pendIdx := (t, (k, some "")) :: c.pendIdx.filter (·.1 ≠ t) }
+        | _ => c
+      else if pt == "store.remove.primary_read_done" then
+        let op := ((c.curOp.find? (·.1 = t)).map (·.2)).getD ""
+        { c with pendIdx := (t, (opKey op, none)) :: c.pendIdx.filter (·.1 ≠ t) }
+      else if pt == "store.put.index_done" ∨ pt == "store.put.done" ∨ pt == "store.remove.index_done" then
+        match c.pendIdx.find? (·.1 = t) with
+        | some (_, u) =>
+          let c1 := poolsStepWith bits c t (.upd (bucketOf u.1) (pkey u.1, u.2)) s!"{t}: index mutator section"
+          { c1 with pendIdx := c1.pendIdx.filter (·.1 ≠ t) }
+        | none => c
+      else if pt == "index.flush.swapped" then poolsStepWith bits c t .flush s!"{t}: swap section of Index.Flush"
+      else if pt == "index.flush.written" then poolsAdvance c t s!"{t}: append section of Index.Flush"
+      else if pt == "index.flush.buckets_updated" then
+        { poolsAdvance c t s!"{t}: publish section of Index.Flush" with flushing := t :: c.flushing }
+      else c
+    | _ => c
+
+def poolsTrack (c : PSim) (programs : List (String × List String)) (ev : String) : PSim :=
+  match ev.splitOn ":" with
+  | [t, "go", pt] =>
+    if pt.startsWith "op" ∧ pt.endsWith ".begin" then
+      let n := ((pt.drop 2).toString.splitOn ".").headD "" |>.toNat?.getD 0
+      let op := (((programs.find? (·.1 = t)).map (·.2)).getD []).getD n ""
+      { c with curOp := (t, op) :: c.curOp.filter (·.1 ≠ t) }
+    else c
+  | _ => c
+
 def isMutator (op : String) : Bool := op.startsWith "put:" || op.startsWith "rm:"
 def keyOfOp (op : String) : String := ((op.splitOn ":").drop 1).headD ""
 def isGC (op : String) : Bool := op.startsWith "pgc" || op.startsWith "igc"
@@ -398,7 +533,25 @@ def step (st : St) (l : Line) : St × List Msg :=
       ((c.bad ++ endBad).take 3).map (fun b => Msg.corr s!"back-pressure model: {b}") ++
       (if c.bad.isEmpty ∧ endBad.isEmpty ∧ c.steps > 0 then [Msg.flag "rate-model-agrees"] else []) ++
       (if c.s.writers.any (fun pc => match pc with | .wait _ => true | _ => false) || !c.s.closed.isEmpty then [Msg.flag "rate-model-waited"] else [])
-    let flags := concMsgs ++ rateMsgs ++ [Msg.flag "schedule"] ++
+    -- (6) the pool-swap model run on the same schedule: lookups return the model's bucket views
+    let poolsEligible := !(l.args.get "locks" = "1") && st.profile ≠ "c12" && overlapKeys.isEmpty &&
+      !(evs.any fun e => (e.splitOn ":blocked:").length > 1) && !(st.programs.any fun (_, ops) => ops.any isGC)
+    let (poolsMsgs, poolsFinal) : List Msg × Option (ConcPools.State PU PV) :=
+      if !poolsEligible then ([], none) else
+      let bucketOfD := fun (g : Bytes) => (bucketOfKey st.bits g).getD 0
+      let buckets := (st.spec.map fun (g, _) => bucketOfD g).eraseDups
+      -- the prepared contents: which of them the preparation flushed is not known and does not matter for any view; they start
+      -- in nextPool, so that the first real swap (which happens iff the real nextPool is non-empty) is enabled in the model
+      let initNext : List (ConcPools.Bucket × PV) := buckets.map fun b =>
+        (b, (st.spec.filter fun (g, _) => bucketOfD g == b).map fun (g, v) => (toHex g, toHex v))
+      let c0 : PSim := { s := { next := initNext, threads := st.programs.map fun _ => {} }, names := st.programs.map (·.1) }
+      let c := evs.foldl (fun c ev => poolsEvent st.bits (poolsTrack c st.programs ev) ev) c0
+      ((c.bad.take 3).map (fun b => Msg.corr s!"pool-swap model: {b}") ++
+        (if c.bad.isEmpty ∧ c.steps > 0 then [Msg.flag "pools-model-agrees"] else []) ++
+        (if c.s.file.length > 0 then [Msg.flag "pools-model-flushed"] else []),
+       if c.bad.isEmpty then some c.s else none)
+    let _ := poolsFinal
+    let flags := concMsgs ++ rateMsgs ++ poolsMsgs ++ [Msg.flag "schedule"] ++
       (if evs.any (·.startsWith "window:open") then [Msg.flag "collector-window"] else []) ++
       (if evs.any (fun e => (e.splitOn ":blocked:").length > 1) then [Msg.flag "thread-blocked"] else []) ++
       (if evs.any (fun e => e.endsWith "@primary.gc.reloc.put") then [Msg.flag "relocation"] else []) ++
